@@ -269,7 +269,8 @@ class _NestedPolicy(DriverPolicy):
 
 def run_path(c: Contract, prefix, timeout_ms, root, src_index, res: TargetResult,
              concrete=None):
-    ctx = concrete if concrete is not None else Ctx(prefix, timeout_ms)
+    ctx = concrete if concrete is not None else Ctx(prefix, timeout_ms,
+                                                   rlimit=getattr(c, "rlimit", None))
     old = S.set_ctx(ctx)
     pol = DriverPolicy(c, root)
     it = Interp(pol, src_index)
